@@ -45,8 +45,6 @@ def main(argv=None):
     except (ValueError, OSError):
         pass
 
-    sys.setrecursionlimit(10000)
-
     from dxv import sut
 
     try:
